@@ -484,6 +484,9 @@ class HtmlWriter:
         if not code_id:
             code_id = self.code_id
         if self.asm_single_page:
+            for c_id, code in self.other_code:
+                if c_id.lower() == code_id.lower():
+                    code_id = c_id
             page_id = self._get_asm_page_id(code_id)
             fname = self.relpath(cwd, self.paths[page_id])
             return '{}#{}'.format(fname, self.asm_anchor(address, raw))
